@@ -189,6 +189,15 @@ where
             }
         }
     }
+    // the weight bound of MultihotCountVec around the modulus (it is a usize: for Field64 the modulus fits)
+    if let Ok(pm) = usize::try_from(modulus::<F>()) {
+        for w in [pm - 2, pm - 1, pm, pm.saturating_add(1)] {
+            for (a, c) in [(4usize, 2usize), (1, 1), (8, 3)] {
+                let r = catch(AssertUnwindSafe(|| MultihotCountVec::<F, PS<F>>::new(a, w, c)));
+                ctor_case(out, format!("c16 ctor {} mhot {} {} {}", f, a, w, c), r);
+            }
+        }
+    }
     // three-parameter constructors: the full cube in the thorough tier, its faces otherwise
     let small: Vec<usize> = if thorough { us.clone() } else { vec![0, 1, 3, (1 << 32) - 1, 1 << 63, usize::MAX] };
     for &a in &us {
@@ -1014,6 +1023,30 @@ pub fn run(out: &mut Out, thorough: bool, seed: u64) {
     poplar1(out, &mut rng, thorough);
     dp(out, &mut rng, thorough);
     gadgets(out, &mut rng);
+    // decode_result of every type: exactly output_len elements, anything else is an error
+    {
+        fn dr<T: Type>(out: &mut Out, rng: &mut Sm, name: &str, t: T)
+        where
+            T::Field: NttFriendlyFieldElement,
+            <T::Field as FieldElementWithInteger>::Integer: TryFrom<u128>,
+        {
+            let ol = t.output_len();
+            for n in [0usize, ol.saturating_sub(1), ol, ol + 1, 2 * ol + 1] {
+                let data = rand_vec::<T::Field>(rng, n);
+                let r = catch(AssertUnwindSafe(|| t.decode_result(&data, 1).map(|_| ())));
+                let c = match &r { Ok(Ok(())) => "ok", Ok(Err(_)) => "err", Err(_) => "panic" };
+                let want = if n == ol { "ok" } else { "err" };
+                out.oracle(c == want, || format!("{}::decode_result on {} elements (output length {})", name, n, ol), || format!("{} (expected {})", c, want));
+                out.count("decode_result");
+            }
+        }
+        dr(out, &mut rng, "Count", Count::<Field64>::new());
+        dr(out, &mut rng, "Sum", Sum::<Field64>::new(100).unwrap());
+        dr(out, &mut rng, "Histogram", Histogram::<Field128, ParallelSum<Field128, Mul>>::new(5, 2).unwrap());
+        dr(out, &mut rng, "SumVec", SumVec::<Field128, ParallelSum<Field128, Mul>>::new(7, 3, 2).unwrap());
+        dr(out, &mut rng, "MultihotCountVec", MultihotCountVec::<Field128, ParallelSum<Field128, Mul>>::new(4, 2, 3).unwrap());
+        dr(out, &mut rng, "L1BoundSum", L1BoundSum::<Field128, ParallelSum<Field128, Mul>>::new(7, 3, 4).unwrap());
+    }
     // Idpf::gen: exactly bits - 1 inner values; an empty input, too few, too many are refused
     {
         use prio::idpf::Idpf;
